@@ -8,6 +8,8 @@ R3  set-once scale (typestate): every write of the inferred scale is dominated b
     construction.
 R4  Coulomb table: rebound only under an ``is None`` test, handed out only through a fresh
     conversion, never written.
+R5  cache transparency: the entry stored on a miss is exactly the value that flows on, and a hit
+    binds the same names to exactly that entry (value-graph equality).
 """
 from __future__ import annotations
 
@@ -249,6 +251,94 @@ def rule_r3(rep, repo):
     rep.floor("methods using an inferred scale", n_use, 10)
 
 
+def rule_r5(rep, repo):
+    """Cache transparency: what is stored on a miss is exactly what flows on, and a hit binds the
+    same names to exactly the stored entry -- so the value handed to the grid is the same function
+    of the shipped data whether the entry was just loaded, loaded earlier, or caching is off."""
+    from gridlint import e5
+    f = repo.method("AngularGrid", "__init__")
+    body = strip_docstring(f.node.body)
+    br = None
+    for s in body:
+        if isinstance(s, ast.If) and isinstance(s.test, ast.Compare) and len(s.test.ops) == 1 and \
+                isinstance(s.test.ops[0], (ast.NotIn, ast.In)) and norm(s.test.comparators[0]) == "cache_dict":
+            br = s
+    if br is None:
+        raise AnalysisError("unrecognised idiom: AngularGrid.__init__ has no `key (not) in cache_dict` branch")
+    key = norm(br.test.left)
+    miss, hit = (br.body, br.orelse) if isinstance(br.test.ops[0], ast.NotIn) else (br.orelse, br.body)
+    cons = "angular.AngularGrid.__init__"
+    # miss branch
+    vg = e5.VG(repo, "AngularGrid", f.node)
+    stored = None
+    store_stmt = None
+
+    def walk(stmts):
+        nonlocal stored, store_stmt
+        for st in stmts:
+            if isinstance(st, ast.If):
+                walk(st.body)   # `if cache:` -- the store is optional, the values must not depend on it
+                continue
+            if isinstance(st, ast.Assign) and isinstance(st.targets[0], ast.Subscript) and \
+                    norm(st.targets[0].value) == "cache_dict":
+                if norm(st.targets[0].slice) != key:
+                    rep.violation("R5.cache-transparent", cons, "store-key",
+                                  f"the entry is stored under `{norm(st.targets[0].slice)}` but looked up under `{key}`",
+                                  repo.rel("angular", st))
+                stored = vg.ev(st.value)
+                store_stmt = st
+                continue
+            vg.stmt(st)
+    walk(miss)
+    if stored is None:
+        raise AnalysisError("unrecognised idiom: the miss branch does not store into cache_dict")
+    # hit branch: names bound from cache_dict[key]
+    hv = e5.VG(repo, "AngularGrid", f.node)
+    for st in hit:
+        hv.stmt(st)
+    entry = ("sub", ("glob", "cache_dict"), hv.ev(br.test.left))
+    names = [n for n in hv.env if hv.env[n] != vg.env.get(n) or n in vg.env]
+    flow = sorted(n for n in set(vg.env) & set(hv.env)
+                  if n not in f.allparams and (hv.env[n] != ("sym", n)) and
+                  (e5.show(hv.env[n]).startswith("cache_dict[") or n in [x.id for x in ast.walk(store_stmt.value)
+                                                                         if isinstance(x, ast.Name)]))
+    if not flow:
+        raise AnalysisError("unrecognised idiom: no names flow out of both cache branches")
+    ok = True
+    if stored[0] != "tuple":
+        stored_items = {flow[0]: stored} if len(flow) == 1 else {}
+    else:
+        stored_items = {}
+    for n in flow:
+        h = hv.env[n]
+        # position of the name in the stored entry
+        if h[0] == "sub" and h[1] == entry and h[2][0] == "const":
+            i = int(h[2][1])
+            sv = stored[1][i] if stored[0] == "tuple" and i < len(stored[1]) else None
+        elif h == entry:
+            sv = stored
+        else:
+            ok = False
+            rep.violation("R5.cache-transparent", cons, f"hit:{n}",
+                          f"on a cache hit `{n}` is {e5.show(h, 80)}, not the stored entry itself: a grid served from "
+                          f"the cache differs from a freshly loaded one", repo.rel("angular", br))
+            continue
+        mv = vg.env.get(n)
+        if sv is not None and sv == mv:
+            rep.ok("R5.cache-transparent", f"AngularGrid.__init__:{n}", repo.rel("angular", store_stmt),
+                   f"stored {e5.show(sv, 60)} == value flowing on after a miss")
+        else:
+            ok = False
+            rep.violation("R5.cache-transparent", cons, f"miss:{n}",
+                          f"after a cache miss `{n}` is {e5.show(mv, 80)} but the cache keeps "
+                          f"{e5.show(sv, 80) if sv is not None else 'nothing for it'}: the first grid of a degree and "
+                          f"the later ones served from the cache are built from different values",
+                          repo.rel("angular", store_stmt))
+    # nothing after the branch may write the flowing names in place (that would alter the entry or
+    # make the miss path differ) -- covered by R1 sinks; here: no re-binding that depends on `cache`
+    return ok
+
+
 def _leaves(t):
     if isinstance(t, (ast.Tuple, ast.List)):
         for e in t.elts:
@@ -272,6 +362,7 @@ def run(tier="quick", root="/repo", evidence_dir=None, quiet=False):
     rule_r1_r4(rep, repo, eng)
     rule_r4(rep, repo)
     rule_r3(rep, repo)
+    rule_r5(rep, repo)
     from gridlint.props import c02
     c02.rule_dispatch(rep, repo, prefix="R2.")
     rep.extra.update({"functions_analysed": len(repo.funcs), "fixpoint_rounds": eng.rounds,
